@@ -951,4 +951,206 @@ def defaultVar (f : FieldDef) : GoVal :=
 def getter (f : FieldDef) (v : GoVal) : GoVal :=
   if supportIsSet f then (if Std.isSet f v then v else defaultVar f) else v
 
+
+/-! ### specification-side predicates: hypotheses of `const_value`, exact acceptance -/
+
+mutual
+def identFree : CV → Bool
+  | .ident _ _ => false
+  | .list xs => identFreeL xs
+  | .map kvs => identFreeP kvs
+  | _ => true
+def identFreeL : List CV → Bool
+  | [] => true
+  | x :: r => identFree x && identFreeL r
+def identFreeP : List (CV × CV) → Bool
+  | [] => true
+  | (k, v) :: r => identFree k && identFree v && identFreeP r
+end
+
+def litOK (s : Bytes) : Bool := goUnquote (emitStr s) == interp s
+
+def isMapLit : CV → Bool
+  | .map _ => true
+  | _ => false
+
+/-- a member that needs a pointer but is not of a base type: only a struct literal gives an addressable value -/
+def addrOK (f : AField) (v : CV) : Bool :=
+  if needRedirect f && !f.ty.cat.isBase then f.ty.cat == .strct && isMapLit v else true
+
+/-- a string literal must be one on which Go's reading of the emitted text is the literal's meaning -/
+def goodStr : CV → Bool
+  | .lit s => litOK s
+  | _ => true
+
+mutual
+def good (E : Env) : Nat → ATy → CV → Bool
+  | g, t, v =>
+    match t.cat with
+    | .str | .bin => goodStr v
+    | .list | .set =>
+        match v with
+        | .list xs => (match t.elem? with | some e => goodL E g e xs | none => true)
+        | _ => true
+    | .map =>
+        match v with
+        | .map kvs => (match t.key?, t.elem? with | some k, some w => goodP E g (bin2str k) w kvs | _, _ => true)
+        | _ => true
+    | .strct =>
+        match v with
+        | .map kvs =>
+            match structOf E g t with
+            | .ok (file, st) => (file == g || identFreeP kvs) && goodM E file st kvs
+            | _ => true
+        | _ => true
+    | _ => true
+def goodL (E : Env) : Nat → ATy → List CV → Bool
+  | _, _, [] => true
+  | g, e, x :: r => good E g e x && goodL E g e r
+def goodP (E : Env) : Nat → ATy → ATy → List (CV × CV) → Bool
+  | _, _, _, [] => true
+  | g, k, w, (a, b) :: r => good E g k a && good E g w b && goodP E g k w r
+def goodM (E : Env) : Nat → AStruct → List (CV × CV) → Bool
+  | _, _, [] => true
+  | file, st, (k, v) :: r =>
+      (match k with
+       | .lit n => (match findField st.fields n with
+          | some (_, f) => addrOK f v && good E file f.ty v
+          | none => true)
+       | _ => true) && goodM E file st r
+end
+
+def CV.isLeaf : CV → Bool
+  | .list _ | .map _ => false
+  | _ => true
+
+
+/-- thriftgo accepted the program: every constant's initialiser resolves (root scope = its own file) -/
+def Accepted (E : Env) : Prop :=
+  ∀ f n c, E.findConst f n = some c → ∃ e, resolveConst E f f c.ty c.val = .ok e
+
+/-- every constant's initialiser satisfies the hypotheses of `const_value` -/
+def EnvGood (E : Env) : Prop :=
+  ∀ f n c, E.findConst f n = some c → good E f c.ty c.val = true
+
+/-- the scan of the literal never meets a quote right after a backslash that starts an escape, nor a raw newline -/
+def litSafe : LexSt → Bytes → Bool
+  | _, [] => true
+  | st, c :: r =>
+      if st = .esc ∧ c = 34 then false
+      else if st = .norm ∧ c = 10 then false
+      else match lexStep st c with
+        | some (st', _) => litSafe st' r
+        | none => true
+
+def resOk {α : Type} : Res α → Bool
+  | .ok _ => true
+  | _ => false
+
+/-- the identifier resolves to a Go name in scope `g` -/
+def idResolves (E : Env) (g : Nat) (x : Option Extra) : Bool :=
+  match getID E g x with
+  | .ok (some _) => true
+  | _ => false
+
+/-- looking the identifier up crashes (no Extra: `true`/`false` where no boolean is expected; a scope that
+    does not have the include) -/
+def idPanics (E : Env) (g : Nat) (x : Option Extra) : Bool :=
+  match getID E g x with
+  | .panic => true
+  | _ => false
+
+def isTF (s : Bytes) : Bool := s = bTrue || s = bFalse
+
+def noPanic {α : Type} : Res α → Bool
+  | .panic => false
+  | _ => true
+
+/-! the kinds of initializer each scalar category takes (C04's catalogue) -/
+
+def accBool (E : Env) (g : Nat) (v : CV) : Bool :=
+  match v with
+  | .int _ | .dbl _ _ => true
+  | .ident s x => isTF s || idResolves E g x
+  | _ => false
+
+def accInt (E : Env) (root g : Nat) (t : ATy) (v : CV) : Bool :=
+  match v with
+  | .int _ => true
+  | .ident s x => isTF s || (idResolves E g x && noPanic (typeName E root g t))
+  | _ => false
+
+def accDouble (E : Env) (g : Nat) (v : CV) : Bool :=
+  match v with
+  | .int _ | .dbl _ _ => true
+  | .ident s x => isTF s || idResolves E g x
+  | _ => false
+
+def accStr (E : Env) (g : Nat) (v : CV) : Bool :=
+  match v with
+  | .lit _ => true
+  | .ident s x => !isTF s && idResolves E g x
+  | _ => false
+
+def accEnum (E : Env) (g : Nat) (v : CV) : Bool :=
+  match v with
+  | .int _ => true
+  | .ident _ x => idResolves E g x
+  | _ => false
+
+def accScalar (E : Env) (root g : Nat) (t : ATy) (v : CV) : Bool :=
+  match t.cat with
+  | .bool => accBool E g v
+  | .i8 | .i16 | .i32 | .i64 => accInt E root g t v
+  | .dbl => accDouble E g v
+  | .str | .bin => accStr E g v
+  | .enum => accEnum E g v
+  | _ => false
+
+mutual
+/-- exactly the initializers thriftgo accepts (the tolerance for containers included) -/
+def accepts (E : Env) (root : Nat) : Nat → ATy → CV → Bool
+  | g, t, v =>
+    match t.cat with
+    | .list | .set =>
+        resOk (typeName E root g t) &&
+        (match v with
+         | .list xs => acceptsL E root g t.elem? xs
+         | .ident _ x => !idPanics E g x
+         | _ => true)                                     -- any other kind: `T{}`
+    | .map =>
+        resOk (typeName E root g t) &&
+        (match v with
+         | .map kvs => acceptsP E root g (t.key?.map bin2str) t.elem? kvs
+         | .ident _ x => !idPanics E g x
+         | _ => true)
+    | .strct =>
+        resOk (typeName E root g t) &&
+        (match v with
+         | .ident _ x => idResolves E g x
+         | .map kvs =>
+             (match structOf E g t with
+              | .ok (file, st) => acceptsM E root file st kvs
+              | _ => false)
+         | _ => false)
+    | _ => accScalar E root g t v
+def acceptsL (E : Env) (root : Nat) : Nat → Option ATy → List CV → Bool
+  | _, _, [] => true
+  | _, none, _ :: _ => false
+  | g, some e, x :: xs => accepts E root g e x && acceptsL E root g (some e) xs
+def acceptsP (E : Env) (root : Nat) : Nat → Option ATy → Option ATy → List (CV × CV) → Bool
+  | _, _, _, [] => true
+  | g, some kt, some vt, (k, v) :: r => accepts E root g kt k && accepts E root g vt v && acceptsP E root g (some kt) (some vt) r
+  | _, _, _, _ :: _ => false
+def acceptsM (E : Env) (root : Nat) : Nat → AStruct → List (CV × CV) → Bool
+  | _, _, [] => true
+  | file, st, (k, v) :: r =>
+      (match k with
+       | .lit n =>
+           (match findField st.fields n with
+            | some (_, f) => resOk (typeName E root file f.ty) && accepts E root file f.ty v
+            | none => false)
+       | _ => false) && acceptsM E root file st r
+end
+
 end Gen.Defaults
